@@ -39,6 +39,14 @@ Fixpoint uvarint (fuel : nat) (n : N) : bytes :=
 Definition pb_msg (m : bytes) : bytes := uvarint 10 (N.of_nat (length m)) ++ m.
 Definition pb_frame (msgs : list bytes) : bytes := flat_map pb_msg msgs.
 
+(* The handlers receive the messages in batches (one transport.WriteMany call each) and
+   write batch after batch, flushing after each; a Protobuf batch is a single w.Write of
+   all its length-prefixed messages. *)
+Definition sse_body (fixed : bool) (batches : list (list bytes)) : bytes :=
+  [13; 10] ++ flat_map (fun b => flat_map (sse_msg fixed) b) batches.
+Definition json_body (batches : list (list bytes)) : bytes := flat_map json_frame batches.
+Definition pb_body (batches : list (list bytes)) : bytes := flat_map pb_frame batches.
+
 (* ---------- client side: EventSource ---------- *)
 
 (* lines end at CRLF, LF or CR; an unterminated tail is never processed *)
@@ -61,40 +69,63 @@ Fixpoint split_colon (l : bytes) : bytes * option bytes :=
                else let '(a, b) := split_colon l' in (c :: a, b)
   end.
 
-Definition f_data : bytes := [100; 97; 116; 97].       (* "data" *)
+Definition f_data : bytes := [100; 97; 116; 97].          (* "data" *)
 Definition f_event : bytes := [101; 118; 101; 110; 116]. (* "event" *)
+Definition f_id : bytes := [105; 100].                   (* "id" *)
+Definition f_retry : bytes := [114; 101; 116; 114; 121]. (* "retry" *)
 
-Record sse_event := mkEv { ev_type : bytes; ev_data : bytes }.
+(* a dispatched event: type ("" = the default "message"), data, the last event ID string
+   and the reconnection time in effect (None = the user agent's default) *)
+Record sse_event := mkEv { ev_type : bytes; ev_data : bytes; ev_id : bytes; ev_retry : option N }.
 
-(* state: data buffer (None = nothing appended yet, i.e. the empty string) and event type *)
-Fixpoint sse_process (ls : list bytes) (data : bytes) (etype : bytes) : list sse_event :=
+(* state: data buffer, event type buffer, last event ID buffer, reconnection time *)
+Fixpoint sse_process (ls : list bytes) (data etype lastid : bytes) (retry : option N)
+  : list sse_event :=
   match ls with
   | [] => []                                   (* end of stream: pending data is discarded *)
   | l :: ls' =>
       match l with
       | [] =>                                  (* blank line: dispatch *)
           match data with
-          | [] => sse_process ls' [] []
-          | _ => mkEv etype (removelast data) :: sse_process ls' [] []
+          | [] => sse_process ls' [] [] lastid retry
+          | _ => mkEv etype (removelast data) lastid retry :: sse_process ls' [] [] lastid retry
           end
       | _ =>
           let '(field, v) := split_colon l in
           match field with
-          | [] => sse_process ls' data etype   (* line starts with ':' -> comment *)
+          | [] => sse_process ls' data etype lastid retry   (* line starts with ':' -> comment *)
           | _ =>
               let value := match v with
                            | None => []
                            | Some [] => []
                            | Some (c :: r) => if c =? 32 then r else c :: r   (* one leading space is dropped *)
                            end in
-              if bytes_eqb field f_data then sse_process ls' (data ++ value ++ [10]) etype
-              else if bytes_eqb field f_event then sse_process ls' data value
-              else sse_process ls' data etype    (* id / retry / unknown: no effect on data *)
+              if bytes_eqb field f_data then sse_process ls' (data ++ value ++ [10]) etype lastid retry
+              else if bytes_eqb field f_event then sse_process ls' data value lastid retry
+              else if bytes_eqb field f_id then
+                (if existsb (N.eqb 0) value then sse_process ls' data etype lastid retry   (* NUL: ignored *)
+                 else sse_process ls' data etype value retry)
+              else if bytes_eqb field f_retry then
+                (match value with
+                 | [] => sse_process ls' data etype lastid retry
+                 | _ => if all_digits value
+                        then sse_process ls' data etype lastid (Some (digits_val value))
+                        else sse_process ls' data etype lastid retry
+                 end)
+              else sse_process ls' data etype lastid retry    (* unknown field: ignored *)
           end
       end
   end.
 
-Definition sse_parse (body : bytes) : list sse_event := sse_process (sse_lines body [] false) [] [].
+(* the stream is UTF-8 decoded first, which drops one leading byte order mark *)
+Definition strip_bom (s : bytes) : bytes :=
+  match s with
+  | 239 :: 187 :: 191 :: r => r
+  | _ => s
+  end.
+
+Definition sse_parse (body : bytes) : list sse_event :=
+  sse_process (sse_lines (strip_bom body) [] false) [] [] [] None.
 
 (* ---------- client side: NDJSON ---------- *)
 
